@@ -192,6 +192,16 @@ def b_once(tier):
             b.fail(Failure("computed-once", f"history={[repr(h) for h in hist]} calls={cm.calls} distinct_variables={len(names)}",
                            dict(kind="once", history=[trees.src(h) for h in hist]), expected=f"<= {len(names)} handler calls",
                            actual=f"{cm.calls}", functions=["CachedMapper.__call__"]))
+    # a large expression: more distinct keys than any plausible bound on a memo table, every variable occurring a second time at the end
+    N = 150000 if tier == "thorough" else 70000
+    vs_ = [p.Variable(f"v{i}") for i in range(N)]
+    big = p.Sum((*vs_, *vs_[:50], p.Product((vs_[0], vs_[N - 1]))))
+    cm = fx.CachedRenamer()
+    r = outcome.run(lambda: cm(big))
+    b.case(("large", N), nontrivial=True, sample=dict(distinct_variables=N))
+    if r[0] != "val" or getattr(cm, "calls", 0) != N:
+        b.fail(Failure("computed-once", f"what=large-expression n={N} calls={getattr(cm, 'calls', None)}", dict(kind="once-large", n=N), expected=f"{N} handler calls", actual=f"{outcome.describe(r)[:60]} calls={getattr(cm, 'calls', None)}",
+                       functions=["CachedMapper.__call__"]))
     return b
 
 
